@@ -41,4 +41,14 @@ contract TypeShapes {
         unitPrice = p;
         return (local, Counters.Mode.Up);
     }
+
+    // several memory parameters, one per line: each is a finding of its own, every time
+    function many(
+        uint256[] memory xs,
+        bytes memory blob,
+        string memory note,
+        IPool.Slot[] memory slotsIn
+    ) external returns (uint256) {
+        return xs.length + blob.length + bytes(note).length + slotsIn.length;
+    }
 }
